@@ -58,7 +58,7 @@ def main() -> int:
                 t0 = time.time()
                 r = sh([str(ROOT / "check"), c, "--tier", a.tier], env={**os.environ, "PEST_REPO": str(wt)}, cwd=str(ROOT))
                 viol = [ln for ln in r.stdout.splitlines() if ln.startswith("VIOLATION")]
-                kind = "missed"
+                kind = "missed" if demo_res != 0 else "quiet (the demo passes on the changed tree too: no violation there any more)"
                 if r.returncode == 1 and viol:
                     kind = "no-failing-input-found" if all(v.endswith("no-failing-input-found") for v in viol) else "caught"
                 elif r.returncode not in (0, 1):
